@@ -45,6 +45,9 @@ type ExploreOpts struct {
 	MaxExecs   int
 	Deadline   time.Time
 	Race       bool
+	// YieldSites: access sites (as reported in RaceSites of an earlier exploration) that are
+	// scheduling points in this one; requires Race (the access hooks are live only then)
+	YieldSites map[string]bool
 	StepBudget int
 	Shard      int
 	NShards    int
@@ -85,6 +88,8 @@ type ExploreResult struct {
 	Violations map[string]*Violation // by signature; min-cost instance kept
 	// FeatureRoots: shortest default-environment history per abstract feature (BFS with Feature set)
 	FeatureRoots map[string][]string
+	// RaceSites: every access site that took part in a race in some explored execution
+	RaceSites map[string]bool
 }
 
 type explorer struct {
@@ -123,7 +128,7 @@ func Explore(o ExploreOpts, body func(s *Sched) *ExecOutcome) *ExploreResult {
 // RunOnce replays one choice list (with tracing) and returns the outcome.
 func RunOnce(o ExploreOpts, choices []int, trace bool, body func(s *Sched) *ExecOutcome) (*ExecOutcome, *Sched) {
 	var out *ExecOutcome
-	s := Run(Opts{StepBudget: o.StepBudget, Race: o.Race, Prefix: choices, Trace: trace}, func(s *Sched) {
+	s := Run(Opts{StepBudget: o.StepBudget, Race: o.Race, YieldSites: o.YieldSites, Prefix: choices, Trace: trace}, func(s *Sched) {
 		out = body(s)
 	})
 	return out, s
@@ -143,7 +148,7 @@ func (e *explorer) explore(prefix []int, sigs []uint64, pre, dev, level int) {
 		return
 	}
 	var out *ExecOutcome
-	s := Run(Opts{StepBudget: e.o.StepBudget, Race: e.o.Race, Prefix: prefix, PrefixSigs: sigs}, func(s *Sched) {
+	s := Run(Opts{StepBudget: e.o.StepBudget, Race: e.o.Race, YieldSites: e.o.YieldSites, Prefix: prefix, PrefixSigs: sigs}, func(s *Sched) {
 		out = e.body(s)
 	})
 	owned := level >= 2 || e.o.Shard == 0
@@ -174,6 +179,10 @@ func (e *explorer) explore(prefix []int, sigs []uint64, pre, dev, level int) {
 			for _, k := range keys {
 				r := s.Races[k]
 				st.RacesSeen++
+				if e.res.RaceSites == nil {
+					e.res.RaceSites = map[string]bool{}
+				}
+				e.res.RaceSites[r.SiteA], e.res.RaceSites[r.SiteB] = true, true
 				e.addViolation(Violation{Property: "C10", Rule: "C10.RACE", Sig: "race: " + r.Sig,
 					Msg: "unsynchronised conflicting accesses: " + r.A + "  ||  " + r.B}, s, pre+dev)
 			}
